@@ -456,9 +456,32 @@ func (p c16) whenPath(c *core.Ctx, t c16type, op, lit string) {
 		}
 		return top, js, nil
 	}
-	// container/leaf
-	expr := "c/o" + op + t.xlit(lit)
-	body := fmt.Sprintf("container c { leaf o { %s } } leaf g { when \"%s\"; type string; } leaf q { type string; }", t.yang, expr)
+	// container/leaf, container/container/leaf, and from a container up to a sibling of it or of its parent ("..": the parent of the
+	// context node, which for a container is the same node under RFC 7950 and under the library's convention)
+	type pathForm struct {
+		name, expr, body string
+		doc              func(o string) string // o: ,"o":<value> or empty
+	}
+	lit2 := t.xlit(lit)
+	forms := []pathForm{
+		{"container", "c/o" + op + lit2, "container c { leaf o { %s } } leaf g { when \"%s\"; type string; } leaf q { type string; }",
+			func(o string) string { return "{\"c\":{\"z\":1" + o + "},\"g\":\"x\",\"q\":\"keep\"}" }},
+		{"container-container", "c/d/o" + op + lit2, "container c { container d { leaf o { %s } leaf z { type int32; } } } leaf g { when \"%s\"; type string; } leaf q { type string; }",
+			func(o string) string { return "{\"c\":{\"d\":{\"z\":1" + o + "}},\"g\":\"x\",\"q\":\"keep\"}" }},
+		{"up-sibling", "../o" + op + lit2, "leaf o { %s } leaf z { type int32; } container g { when \"%s\"; leaf p { type string; } } leaf q { type string; }",
+			func(o string) string { return "{\"z\":1" + o + ",\"g\":{\"p\":\"x\"},\"q\":\"keep\"}" }},
+		{"up-up-container", "../../c/o" + op + lit2, "container c { leaf o { %s } leaf z { type int32; } } container h { container g { when \"%s\"; leaf p { type string; } } leaf hz { type int32; } } leaf q { type string; }",
+			func(o string) string {
+				return "{\"c\":{\"z\":1" + o + "},\"h\":{\"hz\":1,\"g\":{\"p\":\"x\"}},\"q\":\"keep\"}"
+			}},
+		{"up-from-entry", "../o" + op + lit2, "container w { leaf o { %s } leaf z { type int32; } list g { when \"%s\"; key k; leaf k { type string; } } } leaf q { type string; }",
+			func(o string) string {
+				return "{\"w\":{\"z\":1" + o + ",\"g\":[{\"k\":\"a\"},{\"k\":\"b\"}]},\"q\":\"keep\"}"
+			}},
+	}
+	form := forms[c.Rand.Intn(len(forms))]
+	expr := form.expr
+	body := fmt.Sprintf(form.body, t.yang, strings.ReplaceAll(expr, "\"", "\\\""))
 	var mod *meta.Module
 	if c.Guard("load", func() { mod = load(body) }) || mod == nil {
 		return
@@ -468,27 +491,41 @@ func (p c16) whenPath(c *core.Ctx, t c16type, op, lit string) {
 		v := t.values[i]
 		operands = append(operands, &v)
 	}
+	visible := func(top map[string]interface{}) bool {
+		switch form.name {
+		case "up-up-container":
+			h, _ := top["h"].(map[string]interface{})
+			_, vis := h["g"]
+			return vis
+		case "up-from-entry":
+			w, _ := top["w"].(map[string]interface{})
+			l, _ := w["g"].([]interface{})
+			return len(l) == 2
+		}
+		_, vis := top["g"]
+		return vis
+	}
 	for _, o := range operands {
 		c.Eval()
 		want := t.truth(o, op, lit)
-		doc := "{\"g\":\"x\",\"q\":\"keep\"}"
+		doc := form.doc("")
 		if o != nil {
-			doc = fmt.Sprintf("{\"c\":{\"o\":%s},\"g\":\"x\",\"q\":\"keep\"}", jsonScalar(t, *o))
+			doc = form.doc(",\"o\":" + jsonScalar(t, *o))
 		}
-		c.Shape("when-path/container/%s/%s/%v", t.name, op, want)
+		c.Shape("when-path/%s/%s/%s/%v", form.name, t.name, op, want)
 		var top map[string]interface{}
 		var js string
 		var err error
 		if c.Guard("read "+expr, func() { top, js, err = read(mod, doc) }) {
 			continue
 		}
-		sig := fmt.Sprintf("when-path/container/%s/%s", t.name, opName(op))
+		sig := fmt.Sprintf("when-path/%s/%s/%s", form.name, t.name, opName(op))
 		wit := fmt.Sprintf("schema: %s\ndata: %s\noutput: %s", body, doc, js)
 		if err != nil {
 			c.Violate("when/error/"+sig, "read failed: %v\n%s", err, wit)
 			continue
 		}
-		if _, vis := top["g"]; vis != want {
+		if vis := visible(top); vis != want {
 			cls := "false-but-visible"
 			if want {
 				cls = "true-but-hidden"
